@@ -23,7 +23,9 @@ from ..engine import Outcome, Prop
 ENCODINGS = ["utf-8", "utf-8", "utf-8-sig", "utf-16", "latin-1", "cp1252", "utf-32", "utf-16-be", "utf-32-le"]
 EXTS = ["sql", "ddl", "hql", "bql"]
 DECOY_EXTS = ["txt", "json", "md", "sqlx", "bak"]
-SNIPPETS = ["-- résumé of the table ü\n", "-- plain ascii comment\n", "", "", "-- naïve £ sign\n"]
+# the last four carry characters that str.splitlines() treats as line boundaries but file reading does not
+SNIPPETS = ["-- résumé of the table ü\n", "-- plain ascii comment\n", "", "", "-- naïve £ sign\n", "-- page break \x0c after it\n",
+            "-- unicode line separator \u2028 inside\n", "-- next-line \x85 character\n", "-- vt \x0b and fs \x1c here\n"]
 STEMS = ["a", "tbl", "my_table", "x1", "Data", "orders", "t-1", "q_2"]
 # a stale output file that is *longer* than any result, so that an in-place overwrite without truncation leaves a tail behind
 STALE = json.dumps({"stale": True, "padding": "x" * 20000})
